@@ -3,7 +3,7 @@ import TunnoxModel.Spec.C10
 /-!
 Line protocol for C10.
 
-  st  <tail> rw <0|1> [tk <nil | n (<keyhex> <a|c>)*n> pre <m>] me <hex> ev <n> <event>*n ch <k> <size>*k rd <m> <size>*m
+  st  <tail> rw <0|1> [tk <nil | n (<keyhex> <a|c>)*n> pre <m>] me <hex> ev <n> <event>*n ch <k> <size>*k rd <m> <size>*m [rv <n> <event>*n rr <k> <size>*k]
         event:  w <len> <seed> | cw | cl | f <tidhex> <ty> <len> <seed>
       obs:  wr <k> (ok:<n>|closed|err:<n>)*k rd <j> (x:<n>|d:<hex>|eof|err:<kind>|fuel)*j rb <0|1> wb <0|1>
             (x:<n> = the next n bytes of the case's reference stream, see `refStream`)
@@ -92,6 +92,7 @@ structure StCase where
   evs : List Ev
   chunks : List Nat
   reads : List Nat
+  rv : Option (List Ev × List Nat) := none   -- reverse phase: B's events, A's read sizes
 
 def parseStRest (tail : Tail) (rw : Bool) (trk : Option (List (Bytes × Bool))) (pre : Nat) : List String → Option StCase
   | "me" :: me :: "ev" :: n :: ts => do
@@ -99,8 +100,14 @@ def parseStRest (tail : Tail) (rw : Bool) (trk : Option (List (Bytes × Bool))) 
     let n ← n.toNat?
     let (evs, ts) ← parseEvents n ts
     let (ch, ts) ← parseSizes "ch" ts
-    let (rd, _) ← parseSizes "rd" ts
-    pure ⟨tail, rw, trk, pre, me, evs, ch, rd⟩
+    let (rd, ts) ← parseSizes "rd" ts
+    match ts with
+    | "rv" :: k :: ts => do
+      let k ← k.toNat?
+      let (rev, ts) ← parseEvents k ts
+      let (rr, _) ← parseSizes "rr" ts
+      pure ⟨tail, rw, trk, pre, me, evs, ch, rd, some (rev, rr)⟩
+    | _ => pure ⟨tail, rw, trk, pre, me, evs, ch, rd, none⟩
   | _ => none
 
 /-- `tk nil | tk <n> (<keyhex> <a|c>)*n`, then `pre <m>` (the receiving stream is created only after the
@@ -354,7 +361,12 @@ def runModel (ts : List String) : String :=
     | none => "bad-case"
   | "st" :: rest =>
     match parseSt rest with
-    | some c => stObsStr c.me c.evs (modelSt c)
+    | some c =>
+      match c.rv with
+      | none => stObsStr c.me c.evs (modelSt c)
+      | some (rev, rr) =>
+        let o := runDuplex (trackerOf c.trk) c.me c.evs (cutWire c.chunks) c.tail c.rw c.reads rev rr
+        stObsStr c.me c.evs o.fwd ++ " rv " ++ stObsStr c.me rev o.rev
     | none => "bad-case"
   | "dec" :: rest =>
     match parseDec rest with
@@ -386,9 +398,16 @@ def runHolds (caseToks obsToks : List String) : String :=
   | "st" :: rest =>
     match parseSt rest with
     | some c =>
-      match parseStObs (refStream c.me c.evs) obsToks with
-      | some o => boolStr (holdsStream c.me c.evs c.tail c.reads o)
-      | none => "false"
+      match c.rv with
+      | none =>
+        match parseStObs (refStream c.me c.evs) obsToks with
+        | some o => boolStr (holdsStream c.me c.evs c.tail c.reads o)
+        | none => "false"
+      | some (rev, rr) =>
+        match parseStObs (refStream c.me c.evs) (obsToks.takeWhile (· != "rv")),
+              parseStObs (refStream c.me rev) ((obsToks.dropWhile (· != "rv")).drop 1) with
+        | some f, some r => boolStr (holdsDuplex c.me c.evs c.tail c.rw c.reads rev rr ⟨f, r⟩)
+        | _, _ => "false"
     | none => "bad-case"
   | "dec" :: rest =>
     match parseDec rest, parseDecObs obsToks with
